@@ -672,7 +672,7 @@ let main () =
   List.iter (fun (name, lines) ->
     Buffer.clear buf;
     pf "case %s\n" name; cur_case := name;
-    let c = new_ctx () in
-    List.iteri (fun k l -> run_line c l k) lines;
+    let c = ref (new_ctx ()) in
+    List.iteri (fun k l -> if l = "newmodel" then c := new_ctx () else run_line !c l k) lines;
     pf "endcase %s\n" name;
     print_string (Buffer.contents buf)) (List.rev !cases)
